@@ -378,6 +378,11 @@ func (dn *dirNode) setMode(mode fs.FileMode, u avfs.UserReader) bool {
 		return false
 	}
 
+	// As chmod(2): a user who is not a member of the group of the directory can't set its set-group-ID bit.
+	if !u.IsAdmin() && dn.gid != u.Gid() {
+		mode &^= fs.ModeSetgid
+	}
+
 	dn.mode &^= avfs.FileModeMask
 	dn.mode |= mode & avfs.FileModeMask
 
@@ -424,6 +429,11 @@ func (fn *fileNode) fillStatFrom(name string) *MemInfo {
 func (fn *fileNode) setMode(mode fs.FileMode, u avfs.UserReader) bool {
 	if fn.uid != u.Uid() && !u.IsAdmin() {
 		return false
+	}
+
+	// As chmod(2): a user who is not a member of the group of the file can't set its set-group-ID bit.
+	if !u.IsAdmin() && fn.gid != u.Gid() {
+		mode &^= fs.ModeSetgid
 	}
 
 	fn.mode &^= avfs.FileModeMask
